@@ -134,11 +134,13 @@ type c09Obs struct {
 	afterErr int
 	status   int
 	after    []string
+	lastCall string // the last storage call of the request (method name)
 }
 
 func c09Serve(bed *opbed.Bed, req *http.Request) c09Obs {
 	w := &c09Writer{rec: httptest.NewRecorder(), store: bed.Store}
 	var o c09Obs
+	before := len(bed.Store.Journal())
 	func() {
 		defer func() {
 			if p := recover(); p != nil {
@@ -148,6 +150,9 @@ func c09Serve(bed *opbed.Bed, req *http.Request) c09Obs {
 		}()
 		bed.Handler.ServeHTTP(w, req)
 	}()
+	if j := bed.Store.Journal(); len(j) > before {
+		o.lastCall = strings.SplitN(j[len(j)-1], "(", 2)[0]
+	}
 	o.commits = w.commits
 	o.status = w.firstStatus
 	if w.commits > 0 && w.firstIsErr {
@@ -216,11 +221,31 @@ type c09Bed struct {
 	cfg    string
 	cls    []*flowClient
 	sy     *symbols
+	// the id_token_hint verifier of this bed checks iat age and auth_time
+	hintMaxAge bool
+}
+
+// c09HintMaxAge: the id_token_hint verifier with the optional age checks switched on (iat too old, auth_time)
+func c09HintMaxAge(v *op.IDTokenHintVerifier) { v.MaxAgeIAT, v.MaxAge = time.Hour, time.Hour }
+
+// c09ValidatorAuthorizer: an Authorizer with its own request validation (op.AuthorizeValidator), the documented extension
+// point of op.Authorize; the validation itself is the library's
+type c09ValidatorAuthorizer struct{ *op.Provider }
+
+func (a c09ValidatorAuthorizer) ValidateAuthRequest(ctx context.Context, req *oidc.AuthRequest, st op.Storage, v *op.IDTokenHintVerifier) (string, error) {
+	return op.ValidateAuthRequest(ctx, req, st, v)
 }
 
 func c09NewBed(router string, reqObj bool) *c09Bed {
 	cfg := opbed.Config{Router: router, S256: true, Post: true, PrivateKeyJWT: true, Refresh: true, RequestObject: reqObj, JWTProfileGrant: true,
 		Caps: refstore.Caps{CC: true, TE: true, TEVerifier: false, Device: true}}
+	if reqObj {
+		cfg.Options = append(cfg.Options, op.WithIDTokenHintVerifierOpts(c09HintMaxAge))
+	}
+	custom := router == "custom-authorize"
+	if custom {
+		cfg.Router = "provider"
+	}
 	bed, err := opbed.New(cfg)
 	if err != nil {
 		panic(err)
@@ -232,12 +257,25 @@ func c09NewBed(router string, reqObj bool) *c09Bed {
 	bed.Store.AddUser("user1", nil)
 	name := "reqobj-off"
 	if reqObj {
-		name = "reqobj-on"
+		name = "reqobj-on+hint-maxage"
 	}
-	return &c09Bed{bed: bed, router: router, cfg: name, cls: cls, sy: newSymbols()}
+	if custom {
+		// only /authorize is mounted: op.Authorize with an authorizer that implements op.AuthorizeValidator
+		mux := http.NewServeMux()
+		mux.Handle("/authorize", op.NewIssuerInterceptor(bed.Provider.IssuerFromRequest).HandlerFunc(func(w http.ResponseWriter, r *http.Request) {
+			op.Authorize(w, r, c09ValidatorAuthorizer{bed.Provider})
+		}))
+		bed.Handler = mux
+		name = "authorize-validator"
+	}
+	return &c09Bed{bed: bed, router: router, cfg: name, cls: cls, sy: newSymbols(), hintMaxAge: reqObj}
 }
 
 type c09Req struct {
+	// a genuinely signed token with time claims of class tcls sits at tplace; tcheck: the check of the hint verifier
+	// that refuses it first ("" = none / not a hint), tcaller: the function that calls the verifier there
+	tkind, tcls, tplace, tcheck, tcaller string
+
 	method, path string
 	query        url.Values
 	rawQuery     string // overrides query when set
@@ -683,15 +721,184 @@ func (cb *c09Bed) corpus(r *hx.Rand) []*c09Req {
 	return out
 }
 
-func c09HandlerStream(r *hx.Rand, n int, big int, emit func(*hx.Line), stats map[string]int) {
+// ---- tokens GENUINELY signed with the provider's key whose time claims sit at the boundaries the verifiers distinguish
+
+type c09TimeCls struct{ exp, iat, auth, nbf string }
+
+func (c c09TimeCls) String() string {
+	return "exp:" + c.exp + ",iat:" + c.iat + ",auth:" + c.auth + ",nbf:" + c.nbf
+}
+
+var c09ExpCls = []string{"+1h", "+30s", "-1s", "-1h", "missing"}
+var c09IatCls = []string{"-5s", "missing", "+3s", "+1h", "-10y"}
+var c09AuthCls = []string{"-5s", "missing", "-10y"}
+var c09NbfCls = []string{"missing", "+1h", "-1h"}
+
+func c09Offset(c string) (int64, bool) {
+	switch c {
+	case "+1h":
+		return 3600, true
+	case "+30s":
+		return 30, true
+	case "+3s":
+		return 3, true
+	case "-1s":
+		return -1, true
+	case "-5s":
+		return -5, true
+	case "-1h":
+		return -3600, true
+	case "-10y":
+		return -10 * 365 * 86400, true
+	}
+	return 0, false
+}
+
+// c09TimeClasses: quick = exp x iat, and auth_time x nbf for an otherwise valid token; thorough = the full cross
+func c09TimeClasses(full bool) []c09TimeCls {
+	var out []c09TimeCls
+	if full {
+		for _, e := range c09ExpCls {
+			for _, i := range c09IatCls {
+				for _, a := range c09AuthCls {
+					for _, n := range c09NbfCls {
+						out = append(out, c09TimeCls{e, i, a, n})
+					}
+				}
+			}
+		}
+		return out
+	}
+	for _, e := range c09ExpCls {
+		for _, i := range c09IatCls {
+			out = append(out, c09TimeCls{e, i, "-5s", "missing"})
+		}
+	}
+	for _, a := range c09AuthCls {
+		for _, n := range c09NbfCls {
+			if a != "-5s" || n != "missing" {
+				out = append(out, c09TimeCls{"+1h", "-5s", a, n})
+			}
+		}
+	}
+	return out
+}
+
+// c09TimedToken: kind idt (an ID token of client web for user1) or jwtat (a JWT access token), signed by ring key 0 = the
+// provider's signing key "sig1"
+func c09TimedToken(kind string, c c09TimeCls, now int64) string {
+	m := map[string]any{"iss": opbed.Issuer, "sub": "user1", "aud": []string{"web"}}
+	for name, cls := range map[string]string{"exp": c.exp, "iat": c.iat, "auth_time": c.auth, "nbf": c.nbf} {
+		if d, ok := c09Offset(cls); ok {
+			m[name] = now + d
+		}
+	}
+	if kind == "idt" {
+		m["azp"], m["nonce"], m["amr"] = "web", "n", []string{"pwd"}
+	} else {
+		m["jti"], m["client_id"], m["scope"] = "at-timed", "web", "openid profile"
+		delete(m, "auth_time")
+	}
+	b, _ := json.Marshal(m)
+	return c09Signed(string(b), "sig1")
+}
+
+// c09HintCheck: the check of op.VerifyIDTokenHint that refuses a correctly signed hint of this class first
+func c09HintCheck(c c09TimeCls, maxAge bool) string {
+	if d, ok := c09Offset(c.exp); !ok || d <= 0 {
+		return "oidc.CheckExpiration"
+	}
+	if d, ok := c09Offset(c.iat); !ok || d > 0 || (maxAge && d < -3600) {
+		return "oidc.CheckIssuedAt"
+	}
+	if d, ok := c09Offset(c.auth); maxAge && (!ok || d < -3600) {
+		return "oidc.CheckAuthTime"
+	}
+	return ""
+}
+
+// c09SignedTimeCases: every endpoint that takes such a token, on this bed
+func (cb *c09Bed) signedTimeCases(r *hx.Rand, full bool) []*c09Req {
+	var out []*c09Req
+	now := time.Now().Unix()
+	webAuth := basic("web:secret-web")
+	okIDT := c09TimedToken("idt", c09TimeCls{"+1h", "-5s", "-5s", "missing"}, now)
+	mk := func(kind, place, caller string, c c09TimeCls, f func(q *c09Req, tok string)) {
+		q := &c09Req{method: http.MethodPost, query: url.Values{}, form: url.Values{}, ctype: "application/x-www-form-urlencoded"}
+		q.tkind, q.tcls, q.tplace, q.tcaller = kind, c.String(), place, caller
+		if kind == "idt" {
+			q.tcheck = c09HintCheck(c, cb.hintMaxAge)
+		}
+		f(q, c09TimedToken(kind, c, now))
+		q.muts = []string{"signed-time:" + place}
+		out = append(out, q)
+	}
+	authz := func(q *c09Req, tok string) {
+		q.method, q.ctype, q.path = http.MethodGet, "", "/authorize"
+		q.query = url.Values{"client_id": {"web"}, "redirect_uri": {"https://rp.example/cb"}, "response_type": {"code"}, "scope": {"openid"}, "state": {"st"}, "id_token_hint": {tok}}
+		if r.Bool() {
+			q.query.Set("prompt", "none")
+		}
+	}
+	for _, c := range c09TimeClasses(full) {
+		mk("idt", "authorize-hint", "op.ValidateAuthReqIDTokenHint", c, authz)
+		if cb.router == "custom-authorize" {
+			continue
+		}
+		mk("idt", "end_session-hint-get", "op.ValidateEndSessionRequest", c, func(q *c09Req, tok string) {
+			q.method, q.ctype, q.path = http.MethodGet, "", "/end_session"
+			q.query = url.Values{"id_token_hint": {tok}, "post_logout_redirect_uri": {"https://rp.example/logged-out"}, "state": {"s"}}
+		})
+		mk("idt", "end_session-hint-post", "op.ValidateEndSessionRequest", c, func(q *c09Req, tok string) {
+			q.path = "/end_session"
+			q.form = url.Values{"id_token_hint": {tok}, "client_id": {hx.Pick(r, "", "web", "web2")}}
+		})
+		mk("idt", "exchange-subject-id_token", "", c, func(q *c09Req, tok string) {
+			q.path, q.headers = "/oauth/token", [][2]string{webAuth}
+			q.form = url.Values{"grant_type": {"urn:ietf:params:oauth:grant-type:token-exchange"}, "subject_token": {tok}, "subject_token_type": {"urn:ietf:params:oauth:token-type:id_token"}}
+		})
+		mk("idt", "exchange-actor-id_token", "", c, func(q *c09Req, tok string) {
+			q.path, q.headers = "/oauth/token", [][2]string{webAuth}
+			q.form = url.Values{"grant_type": {"urn:ietf:params:oauth:grant-type:token-exchange"}, "subject_token": {okIDT}, "subject_token_type": {"urn:ietf:params:oauth:token-type:id_token"},
+				"actor_token": {tok}, "actor_token_type": {"urn:ietf:params:oauth:token-type:id_token"}}
+		})
+		if c.auth != "-5s" {
+			continue // a JWT access token carries no auth_time
+		}
+		mk("jwtat", "userinfo-bearer", "", c, func(q *c09Req, tok string) {
+			q.method, q.ctype, q.path = http.MethodGet, "", "/userinfo"
+			q.headers = [][2]string{{"Authorization", "Bearer " + tok}}
+		})
+		mk("jwtat", "introspect-token", "", c, func(q *c09Req, tok string) {
+			q.path, q.headers, q.form = "/oauth/introspect", [][2]string{webAuth}, url.Values{"token": {tok}}
+		})
+		mk("jwtat", "revoke-token", "", c, func(q *c09Req, tok string) {
+			q.path, q.headers, q.form = "/revoke", [][2]string{webAuth}, url.Values{"token": {tok}, "token_type_hint": {hx.Pick(r, "", "access_token")}}
+		})
+		mk("jwtat", "exchange-subject-access_token", "", c, func(q *c09Req, tok string) {
+			q.path, q.headers = "/oauth/token", [][2]string{webAuth}
+			q.form = url.Values{"grant_type": {"urn:ietf:params:oauth:grant-type:token-exchange"}, "subject_token": {tok}, "subject_token_type": {"urn:ietf:params:oauth:token-type:access_token"}}
+		})
+	}
+	return out
+}
+
+func c09HandlerStream(r *hx.Rand, n int, big int, full bool, emit func(*hx.Line), stats map[string]int) {
 	beds := []*c09Bed{c09NewBed("provider", false), c09NewBed("legacy", false), c09NewBed("provider", true), c09NewBed("legacy", true)}
+	customBed := c09NewBed("custom-authorize", false)
 	hostile := c09HostileTokens(r)
 	run := func(cb *c09Bed, q *c09Req) {
 		req := q.build()
 		o := c09Serve(cb.bed, req)
 		entry := c09ProviderEntry[q.path]
-		if cb.router == "legacy" {
+		switch cb.router {
+		case "legacy":
 			entry = c09LegacyEntry[q.path]
+		case "custom-authorize":
+			entry = ""
+			if q.path == "/authorize" {
+				entry = "Authorize"
+			}
 		}
 		cls := "valid"
 		if len(q.muts) > 0 {
@@ -700,10 +907,29 @@ func c09HandlerStream(r *hx.Rand, n int, big int, emit func(*hx.Line), stats map
 		l := hx.NewLine("C09").S("kind", "handler").S("router", cb.router).S("cfg", cb.cfg).S("entry", entry).S("route", q.path).S("method", q.method).
 			S("grant", q.form.Get("grant_type")).S("mut", cls).B("panic", o.panicked).I("commits", int64(o.commits)).I("afterErr", int64(o.afterErr)).I("status", int64(o.status))
 		if o.panicked {
-			l.S("pv", clip(o.pv, 160))
+			l.S("pv", clip(o.pv, 160)).S("lastcall", o.lastCall)
 		}
 		if o.afterErr > 0 {
 			l.S("after", clip(strings.Join(o.after, ";"), 200))
+		}
+		if q.tplace != "" {
+			l.S("tkind", q.tkind).S("tplace", q.tplace).S("tcls", q.tcls).S("tcheck", q.tcheck).S("tcaller", q.tcaller)
+			stats["handler.signed.place."+q.tplace]++
+			for _, kv := range strings.Split(q.tcls, ",") {
+				stats["handler.signed.cls."+kv]++
+			}
+			if q.tkind == "idt" {
+				chk := q.tcheck
+				if chk == "" {
+					chk = "accepted"
+				}
+				stats["handler.signed.hintcheck."+chk]++
+			}
+			if o.panicked {
+				stats["handler.signed.outcome.panic"]++
+			} else {
+				stats[fmt.Sprintf("handler.signed.outcome.%dxx", o.status/100)]++
+			}
 		}
 		l.S("req", q.describe())
 		emit(l)
@@ -722,6 +948,22 @@ func c09HandlerStream(r *hx.Rand, n int, big int, emit func(*hx.Line), stats map
 		for _, q := range cb.corpus(r) {
 			run(cb, q)
 		}
+	}
+	// correctly signed tokens at every time boundary, at every endpoint that takes one, on every bed
+	for _, cb := range append(append([]*c09Bed{}, beds...), customBed) {
+		for _, q := range cb.signedTimeCases(r, full) {
+			run(cb, q)
+		}
+	}
+	// op.Authorize behind an authorizer with its own validation (op.AuthorizeValidator): valid and mutated requests
+	for i := 0; i < 40+n/100; i++ {
+		q := customBed.base(r, "/authorize", "")
+		if i > 0 {
+			for j := r.Intn(3); j > 0; j-- {
+				q.muts = append(q.muts, customBed.mutate(r, q, hostile, big))
+			}
+		}
+		run(customBed, q)
 	}
 	// every route x method x grant once, valid and with one mutation; then random combinations
 	for i := 0; i < n; i++ {
@@ -1116,6 +1358,54 @@ func c09VerifyStream(r *hx.Rand, n int, emit func(*hx.Line), stats map[string]in
 	}
 }
 
+// c09HintCallerStream: the two callers of op.VerifyIDTokenHint that go on with the claims after an "expired" error,
+// called directly with correctly signed hints of EVERY time class, with the plain and the age-checking verifier
+func c09HintCallerStream(emit func(*hx.Line), stats map[string]int) {
+	now := time.Now().Unix()
+	for _, maxAge := range []bool{false, true} {
+		cb := c09NewBed("provider", maxAge)
+		ctx := op.ContextWithIssuer(context.Background(), opbed.Issuer)
+		var opts []op.IDTokenHintVerifierOpt
+		if maxAge {
+			opts = append(opts, c09HintMaxAge)
+		}
+		callers := []struct {
+			name string
+			f    func(tok string) error
+		}{
+			{"op.ValidateAuthReqIDTokenHint", func(tok string) error {
+				_, err := op.ValidateAuthReqIDTokenHint(ctx, tok, op.NewIDTokenHintVerifier(opbed.Issuer, c09KeySet{}, opts...))
+				return err
+			}},
+			{"op.ValidateEndSessionRequest", func(tok string) error {
+				_, err := op.ValidateEndSessionRequest(ctx, &oidc.EndSessionRequest{IdTokenHint: tok}, cb.bed.Provider)
+				return err
+			}},
+		}
+		for _, c := range c09TimeClasses(true) {
+			tok := c09TimedToken("idt", c, now)
+			for _, cl := range callers {
+				obs, pv := c09Guard(func() error { return cl.f(tok) })
+				if obs == "val" {
+					obs = "ok"
+				}
+				l := hx.NewLine("C09").S("kind", "hint").S("caller", cl.name).B("maxage", maxAge).S("tcls", c.String()).S("tcheck", c09HintCheck(c, maxAge)).S("obs", obs)
+				if pv != "" {
+					l.S("pv", clip(pv, 120))
+				}
+				l.S("tok", clip(tok, 120))
+				emit(l)
+				stats["hint."+obs]++
+				chk := c09HintCheck(c, maxAge)
+				if chk == "" {
+					chk = "accepted"
+				}
+				stats["hint.check."+chk]++
+			}
+		}
+	}
+}
+
 // ---------------------------------------------------------------- (iii) client helpers against a hostile provider
 
 type c09RT struct {
@@ -1382,10 +1672,11 @@ func c09Stream(r *hx.Rand, tier string, n int, w *bufio.Writer) map[string]int {
 		fmt.Fprintf(w, "C09 case=%d %s\n", id, strings.TrimPrefix(s, "C09 "))
 		id++
 	}
-	c09HandlerStream(r, n*45/100, big, emit, stats)
+	c09HandlerStream(r, n*45/100, big, tier == "thorough", emit, stats)
 	c09DecoderStream(r, n/100, emit, stats)
 	c09ClaimsStream(r, emit, stats)
 	c09VerifyStream(r, n*3/100, emit, stats)
+	c09HintCallerStream(emit, stats)
 	c09ClientStream(r, n*20/100, emit, stats)
 	return stats
 }
